@@ -6,7 +6,7 @@ LEVEL = 'exploration'
 CACHE_FULL = 0x607
 ST_RESP, ST_CONF, ST_ERR = 3, 4, 5
 
-ACTIONS = ['add', 'run', 'reply', 'reply_last', 'dup', 'unknown_id', 'stale_gen', 'bad_mac', 'err_status', 'err_pdu', 'push_conf', 'partial', 'close', 'refuse', 'wouldblock', 'clock', 'grow', 'add_unsendable', 'other_hash']
+ACTIONS = ['add', 'run', 'reply', 'reply_last', 'dup', 'unknown_id', 'stale_gen', 'bad_mac', 'err_status', 'err_pdu', 'push_conf', 'partial', 'close', 'refuse', 'wouldblock', 'clock', 'grow', 'add_unsendable', 'other_hash', 'bad_mac_conf']
 
 
 class Req:
@@ -268,7 +268,14 @@ class Monitor:
             if self.push(S.error_pdu('aggr', 2, self.key, status=0x101)):
                 self.cause_all('error PDU')
         elif a == 'push_conf':
-            self.push(S.wrap_v2(S.AGGR_RESP_V2, [S.conf_elem('aggr', 2, max_level=17, aggr_period=400, max_req=4)], self.key))
+            if self.push(S.wrap_v2(S.AGGR_RESP_V2, [S.conf_elem('aggr', 2, max_level=17, aggr_period=400, max_req=4)], self.key)):
+                self.auth_confs_pushed = getattr(self, 'auth_confs_pushed', 0) + 1
+        elif a == 'bad_mac_conf':
+            # a configuration in a PDU that does not authenticate (wrong key): nothing of it may be delivered; like every unauthenticated PDU it may
+            # cost the outstanding requests their connection
+            if self.push(S.wrap_v2(S.AGGR_RESP_V2, [S.conf_elem('aggr', 2, max_level=19, aggr_period=12345, max_req=65535)], b'wrong-key')):
+                self.cause_all('unauthenticated data')
+                self.r.count('unauthenticated_configurations_pushed')
         elif a == 'partial':
             # deliver only the first byte(s) of the next reply now, the rest later
             cands = [q for q in self.outstanding() if q.sent and not q.valid_reply]
@@ -381,6 +388,9 @@ class Monitor:
             st = int(q['state'])
             if st == ST_CONF:
                 self.trace[-1] = 'run->conf'
+                self.confs_returned = getattr(self, 'confs_returned', 0) + 1
+                if self.confs_returned > getattr(self, 'auth_confs_pushed', 0) or '12345' in (q.get('config') or ''):
+                    self.viol('configuration-delivered-without-authentic-pdu', 'a configuration handle was handed out (%s); authentic configuration PDUs pushed so far: %d, handles handed out: %d' % (q.get('config'), getattr(self, 'auth_confs_pushed', 0), self.confs_returned))
                 return q
             tag = q.get('tag')
             rq = self.reqs.get(tag)
